@@ -139,6 +139,14 @@ func (c *Ctx) osap() *osapInfo {
 	return o
 }
 
+// nLin: the block length n of the DP, by role: the cost table is made with n + 1 entries.
+func (o *osapInfo) nLin() Lin {
+	if mk, ok := o.d.(*ssa.MakeSlice); ok {
+		return o.dfi.lin(mk.Len).addc(-1)
+	}
+	return o.dfi.lin(o.dp.Params[len(o.dp.Params)-1])
+}
+
 func (c *Ctx) osapOrFail(key string) *osapInfo {
 	o := c.osap()
 	if o.err != "" {
@@ -490,7 +498,7 @@ func ruleDPMatch(c *Ctx) {
 			// max must be min(e.m, lim) with lim = n − i: a two-way phi clamp, the
 			// builtin min, or e.m itself where e.m ≤ lim is established
 			av := fi.atomValues()
-			lim := fi.lin(o.dp.Params[len(o.dp.Params)-1]).sub(fi.lin(ypos))
+			lim := o.nLin().sub(fi.lin(ypos))
 			if len(mx.t) == 1 && mx.c == 0 {
 				for a := range mx.t {
 					v := av[a]
@@ -723,7 +731,6 @@ func ruleDPBack(c *Ctx) {
 	}
 	fi := o.dfi
 	name := fnName(o.dp)
-	nParam := o.dp.Params[len(o.dp.Params)-1]
 	// backtrack loop: header phi i with init n, back value i − load(d[i].F)
 	var bl *Loop
 	var iphi *ssa.Phi
@@ -755,7 +762,7 @@ func ruleDPBack(c *Ctx) {
 	// init = n
 	initOK := false
 	for k, e := range iphi.Edges {
-		if !bl.Blocks[iphi.Block().Preds[k]] && fi.lin(e).eq(fi.lin(nParam)) {
+		if !bl.Blocks[iphi.Block().Preds[k]] && fi.lin(e).eq(o.nLin()) {
 			initOK = true
 		}
 	}
@@ -869,7 +876,7 @@ func ruleDPBack(c *Ctx) {
 			if !step {
 				continue
 			}
-			n := fi.lin(nParam)
+			n := o.nLin()
 			pi := fi.lin(pidx)
 			// forms: (idx = ph+1, init −1, stay ph+2−n ≤ 0) or (idx = ph, init 0, stay ph+1−n ≤ 0)
 			if pi.eq(fi.lin(ph).addc(1)) && initL.isConst() && initL.c == -1 && fs[0].L.eq(fi.lin(ph).addc(2).sub(n)) {
